@@ -334,6 +334,26 @@ impl<'a> LTr<'a> {
         }
         Ok(None)
     }
+
+    /// `opt.map_or(default, |x| body)` with a pure body
+    fn map_or(&mut self, recv: &str, inner: &LTy, default: &Expr, clo: &Expr) -> R<(String, LTy)> {
+        let c = match clo {
+            Expr::Closure(c) if c.inputs.len() == 1 && c.capture.is_none() => c,
+            _ => return Err("map_or argument".into()),
+        };
+        let name = match &c.inputs[0] {
+            Pat::Ident(id) if id.by_ref.is_none() && id.mutability.is_none() && id.subpat.is_none() => id.ident.to_string(),
+            _ => return Err("map_or closure parameter".into()),
+        };
+        let (d, dt) = self.pure_expr(default)?;
+        let saved = self.vars.clone();
+        self.vars.insert(name.clone(), inner.clone());
+        let r = self.pure_expr(&c.body);
+        self.vars = saved;
+        let (b, bt) = r?;
+        let t = if bt != LTy::Unknown { bt } else { dt };
+        Ok((format!("(match {recv} with | some {name} => {b} | none => {d})"), t))
+    }
 }
 
 /// does the `if` produce a value (its first branch ends in an expression that is not a statement)?
